@@ -8,16 +8,20 @@ records (op ⇒ implementation's observation):
   `reset`                                                     ⇒ `ok`
   `cfg tr=<transport> pv=<version>`                           ⇒ `ok` | `connect-fail` | `panic`
   `c <i> dir=<c2s|s2cn|s2cd> meth=<m> mode=<park|deaf|quick|drive> d=<ms> at=<ms>` ⇒ `ok`
-  `x victim=<i> when=<pre|run|race|post> tc=<ms> dl=<0|1> fault=<none|stall|reject|fail>` ⇒ `ok`
+  `x victim=<i> when=<pre|run|race|post> tc=<ms> dl=<0|1> fault=<none|stall|reject|fail|late|timeout|s503|reset> [rc=1]` ⇒ `ok`
+        (late, timeout, s503, reset: what the foreign server of transport fj does with the POST of the notice; `late` =
+        processed at once, acknowledged late: not a fault.  rc=1: the receiver of the victim's request starts a graceful
+        Close 5 ms before the victim's context ends; no follow-up calls)
   `e <seq> <snd|beg|fin|hc|can|ret> <call>`                   ⇒ `t=<ms> [a=<arg>]`   (the event log, in order)
-  `end`                                                       ⇒ `extra=<n> stuck=<0|1> t=<ms> stall=<n> reject=<n> fail=<n>`
+  `end`                                                       ⇒ `extra=<n> stuck=<0|1> t=<ms> stall=<n> reject=<n> fail=<n> [closehung=<0|1>]`
 
 Calls 100, 101, 102 are the follow-up calls (client→server before the release, nested server→client before the
 release, client→server at the end).  Model side (`D` when it disagrees), at `end`: nothing unknown was handled
 (`extra=0`), nothing is stuck, and the event log must be the visible part of a run of `Cancel.step` for the
 configuration of the case with `keepValues` taken from the regenerated flag (the invisible labels `deliver`,
 `skip`, `resp` are taken eagerly — they only enable — `retire`/`notice`/`drop` by backtracking over when, `tick` when
-the next event is later); otherwise `rejected@<seq>`.  Not checked against the model: cases whose injected
+the next event is later; should that fail, the events of one virtual instant — logged by different goroutines racing
+for one mutex — may be consumed in any order that keeps the order of each call's own events); otherwise `rejected@<seq>`.  Not checked against the model: cases whose injected
 fault makes the transport Write fail (`fault=fail`): the connection then shuts down by design, which the model
 does not describe.  Monitor side (`V`): `Cancel.mon` and `Cancel.monEnd` (Monitor.lean; bridge and clause
 soundness in Bridge.lean / Sound.lean) on the implementation's log.
@@ -63,7 +67,7 @@ def mkCfg (st : DSt) : Cfg :=
         let c2s := k.dir == "c2s"
         { dir := if c2s then .c2s else .s2c,
           encl := if k.dir == "s2cn" then carrier else none,
-          fault := st.fault != "none" && (c2s == vdirC2S),
+          fault := st.fault != "none" && st.fault != "late" && (c2s == vdirC2S),
           plain := k.meth == "ping" }
       | none => {}
   { tr := if st.tr.startsWith "sl" then .stateless else if st.tr.startsWith "sh" then .stateful else .pipe,
@@ -196,10 +200,68 @@ partial def search (c : Cfg) (is : List Nat) (s : St) (evs : List Ev) (pos fuel 
       | none => viaNotice
     else viaNotice
 
-/-- `none` = the log is the visible part of a run; `some k` = every attempt got stuck at or before event k. -/
+/-- Events of one virtual instant are logged by different goroutines racing for one mutex: the order of the log
+among events of DIFFERENT calls within one instant is not causal.  Relaxed search: the events of the current
+instant (`grp`, in log order) may be consumed in any order that keeps the order of the events of each call. -/
+partial def searchR (c : Cfg) (is : List Nat) (s : St) (grp : List Ev) (rest : List Ev) (pos fuel : Nat) : SR :=
+  if fuel == 0 then ⟨false, pos, 0⟩ else
+  let s := settle c is s 8
+  match grp, rest with
+  | [], [] => ⟨true, pos, fuel⟩
+  | [], e :: _ =>
+    if e.t < s.now then ⟨false, pos, fuel - 1⟩ else
+    if e.t == s.now then searchR c is s (rest.takeWhile fun x => x.t == e.t) (rest.dropWhile fun x => x.t == e.t) pos (fuel - 1) else
+    -- before time passes: pending notices, retiring callers
+    let inv := invisible c is s
+    let viaInv := inv.foldl (fun (best : SR) s' =>
+      if best.ok || best.fuel == 0 then best else
+        let r := searchR c is s' [] rest pos (best.fuel - 1)
+        if r.ok || r.pos > best.pos then r else { best with fuel := r.fuel }) ⟨false, pos, fuel - 1⟩
+    if viaInv.ok then viaInv else
+    match step c s (.tick (e.t - s.now)) with
+    | some s' =>
+      let r := searchR c is s' [] rest pos (viaInv.fuel - 1)
+      if r.ok || r.pos > viaInv.pos then r else { viaInv with fuel := r.fuel }
+    | none => viaInv
+  | _ :: _, _ =>
+    -- any event of the instant whose call has no earlier pending event
+    let cands := grp.zipIdx.filter fun (e, k) => !(grp.take k).any fun x => x.i == e.i
+    let direct := cands.foldl (fun (best : SR) (e, k) =>
+      if best.ok || best.fuel == 0 then best else
+        match visibleLabel e with
+        | some l =>
+          match step c s l with
+          | some s' =>
+            if s'.trace == s.trace ++ [e] then
+              let r := searchR c is s' (grp.eraseIdx k) rest (pos + 1) (best.fuel - 1)
+              if r.ok || r.pos > best.pos then r else { best with fuel := r.fuel }
+            else best
+          | none => best
+        | none => best) ⟨false, pos, fuel - 1⟩
+    if direct.ok then direct else
+    (invisible c is s).foldl (fun (best : SR) s' =>
+      if best.ok || best.fuel == 0 then best else
+        let r := searchR c is s' grp rest pos (best.fuel - 1)
+        if r.ok || r.pos > best.pos then r else { best with fuel := r.fuel }) direct
+where
+  /-- the states reachable by one invisible, non-eager label: a pending notice delivered without a visible effect
+  or dropped, a caller retiring its call -/
+  invisible (c : Cfg) (is : List Nat) (s : St) : List St :=
+    is.flatMap fun i =>
+      (if s.notice i == .pending then
+        (match step c s (.notice i) with
+          | some s' => if s'.trace == s.trace then [s'] else []
+          | none => []) ++ (match step c s (.drop i) with | some s' => [s'] | none => [])
+       else []) ++
+      (match step c s (.retire i) with | some s' => [s'] | none => [])
+
+/-- `none` = the log is the visible part of a run (first in log order, then up to the order of same-instant events
+of different calls); `some k` = every attempt got stuck at or before event k. -/
 def accept (c : Cfg) (evs : List Ev) : Option Nat :=
   let r := search c (ids evs) init evs 0 200000
-  if r.ok then none else some r.pos
+  if r.ok then none else
+  let r2 := searchR c (ids evs) init [] evs 0 300000
+  if r2.ok then none else some (max r.pos r2.pos)
 
 /-- Each context ends at most once. -/
 def canOnce (evs : List Ev) : Bool :=
@@ -233,10 +295,10 @@ def clauseText (st : DSt) (c : Cfg) : Clause → String
       s!"C04: {callName st i} returned {r}, which is neither the peer's result nor the error its own context ended with: a cancelled call returns the context's error"
     else if c.tr == .stateless && st.tr.contains 'p' then
       s!"C04: cancel-F1 2026-07-28 on a stateless streamable server: {callName st i}, whose context never ended, returned {r} after another call was cancelled (the cancel notice lacks the per-request _meta, is refused with 400, and the client treats that as a broken connection): the session must stay usable for further calls"
-    else if st.tr == "fj" then
+    else if st.tr == "fj" && (st.fault == "none" || st.fault == "late") then
       s!"C04: cancel-F2 streamable client, application/json response whose headers arrived before its body: {callName st i}, whose context never ended, returned {r} after call {st.victim} was cancelled while its response body was being read (the interrupted read is taken for a broken session): the session must stay usable for further calls and no other in-flight call may be affected by a cancellation"
     else
-      s!"C04: {callName st i}, whose context never ended, returned {r} (victim {st.victim}, fault={st.fault}): the session must stay usable for further calls and no other in-flight call may be affected by a cancellation"
+      s!"C04: {callName st i}, whose context never ended, returned {r} (transport {st.tr}, victim {st.victim}, what the transport did to the cancellation notice: {st.fault}): even if the cancellation notice cannot be delivered the session must stay usable for further calls and no other in-flight call may be affected by a cancellation"
   | .foreignResult i p =>
     s!"C04: {callName st i} returned the result of call {p}: a late response to an abandoned call must be discarded without effect"
   | .peerNotCancelled i =>
@@ -293,7 +355,11 @@ def engine : Engine DSt where
           | none =>
             if kv o "stuck" == some "1" && !broken then some "C04: some call never returned although every handler was released and 20 s of virtual time passed" else none
       let stuck := if broken then echo "stuck" else "stuck=0"
-      (st, { model := s!"extra=0 {stuck} {echo "t"} {echo "stall"} {echo "reject"} {echo "fail"}{rej}", violated := v })
+      let ch := if (kv o "closehung").isSome then " closehung=0" else ""
+      let v := match v with
+        | some x => some x
+        | none => if kv o "closehung" == some "1" then some "C04+C05: the receiver's graceful Close, started before the caller cancelled, had not returned 6 s after every handler was released" else none
+      (st, { model := s!"extra=0 {stuck} {echo "t"} {echo "stall"} {echo "reject"} {echo "fail"}{ch}{rej}", violated := v })
     | _ => (st, { model := "bad-op" })
 
 end Cancel
